@@ -1025,7 +1025,7 @@ namespace BitSerializer::Convert::Utf
 			return result.ErrorCode == UtfEncodingErrorCode::Success || result.ErrorCode == UtfEncodingErrorCode::UnexpectedEnd ? EncodedStreamReadResult::Success : EncodedStreamReadResult::DecodeError;
 		}
 
-		UtfType mUtfType;
+		UtfType mUtfType = UtfType::Utf8;
 		std::istream& mInputStream;
 		UtfEncodingErrorPolicy mEncodingErrorPolicy;
 		const TTargetCharType* mErrorMark;
